@@ -107,6 +107,18 @@ func (f LeveldbDiskStorage) SetTableMeta(tbl *btapb.Table) {
 	verifYield("disk.meta.renamed")
 }
 
+// DeleteTable removes the table's definition file and its data directory. Requests still running
+// on the table keep working on the unlinked files.
+func (f LeveldbDiskStorage) DeleteTable(tbl *btapb.Table) {
+	path := filepath.Join(f.Root, tbl.Name)
+	if err := os.Remove(path + ".table.proto"); err != nil && !os.IsNotExist(err) {
+		f.errLog(err, "os.Remove %q", path+".table.proto")
+	}
+	if err := os.RemoveAll(path); err != nil {
+		f.errLog(err, "os.RemoveAll %q", path)
+	}
+}
+
 func (f LeveldbDiskStorage) errLog(err error, format string, args ...interface{}) {
 	if f.ErrLog != nil {
 		f.ErrLog(err, fmt.Sprintf(format, args...))
